@@ -101,7 +101,7 @@ func leadDay(t ref.DT) bool {
 
 var pillars = ev.Register(&ev.P[momentCase]{
 	Name: "pillars_at_moment",
-	Rule: "civil moments generated with emphasis on Jie instants +-{0,1 s,1 min,1 h,1 day}, Lichun, lunar New Year +-3 days, odd-hour boundaries +-1 s, 23:00/23:59:59, and swept (every Jie of every sweep year x offsets, every day of hot years x slot boundaries); oracle: day pillar (JDN-11) mod 60 (Exact: next day's from 23:00; Exact2: same day), hour branch from the slot and stem by five-rats from the Exact day stem, year pillar (lunarYear-4) mod 60 / Lichun-day / Lichun-instant variants, month pillar = unbroken 60-cycle stepping at each Jie day (Exact: instant) = five-tigers from the Lichun-convention year in force; all string, stem, branch and index getters and EightChar under both sects agree; non-trivial: within 2 h of a Jie instant, on a Jie day, 23:xx, on a slot boundary second, or lunar year != civil year",
+	Rule: "civil moments generated with emphasis on Jie instants +-{0,1 s,1 min,1 h,1 day}, Lichun, lunar New Year +-3 days, odd-hour boundaries +-1 s, 23:00/23:59:59, and swept (every Jie of every sweep year x offsets, every day of hot years x slot boundaries); oracle: day pillar (JDN-11) mod 60 (Exact: next day's from 23:00; Exact2: same day), hour branch from the slot and stem by five-rats from the Exact day stem, year pillar (lunarYear-4) mod 60 / Lichun-day / Lichun-instant variants, month pillar = unbroken 60-cycle stepping at each Jie day (Exact: instant) = five-tigers from the Lichun-convention year in force; all string, stem, branch and index getters and EightChar under both sects agree (any other switch value means convention 2; asking for a fortune leaves switch and pillars alone); the thirteen hour objects of GetTimes() carry the day's hour pillars whatever the receiver's clock time; non-trivial: within 2 h of a Jie instant, on a Jie day, 23:xx, on a slot boundary second, or lunar year != civil year",
 	Check: func(c momentCase) error {
 		t := c.T
 		l := gen.Solar(t).GetLunar()
@@ -147,7 +147,45 @@ var pillars = ev.Register(&ev.P[momentCase]{
 				return fmt.Errorf("%v sect %d: EightChar stem+branch getters do not compose to the pillars", t, sect)
 			}
 		}
+		// the remaining clauses build many objects: a deterministic share of the cases, denser at 23:xx where the
+		// conventions differ
+		if h := (ref.JDN(t.Y, t.M, t.D)*7 + t.H*3 + t.Mi + t.S) % 32; !(h == 0 || (t.H == 23 && h%4 == 0)) {
+			return nil
+		}
+		// any other value of the convention switch is documented to mean the late-rat convention (2)
+		for _, odd := range []int{0, 3, -1} {
+			ec.SetSect(odd)
+			if ec.GetSect() != 2 || ec.GetDay() != ref.Pair(m.dayEx2) || ec.GetDayGan()+ec.GetDayZhi() != ec.GetDay() || ec.GetDayGanIndex() != m.dayEx2%10 || ec.GetDayZhiIndex() != m.dayEx2%12 {
+				return fmt.Errorf("%v: after SetSect(%d) GetSect=%d day pillar %s (%s+%s, indices %d,%d); every value but 1 means convention 2, whose day pillar is %s", t, odd, ec.GetSect(), ec.GetDay(), ec.GetDayGan(), ec.GetDayZhi(), ec.GetDayGanIndex(), ec.GetDayZhiIndex(), ref.Pair(m.dayEx2))
+			}
+		}
 		ec.SetSect(2)
+		// asking for a fortune does not touch the convention switch or the pillars
+		for _, g := range []int{1, 0} {
+			for _, ys := range []int{1, 2} {
+				ec.SetSect(ys) // the fortune school below is deliberately the other value
+				_ = ec.GetYunBySect(g, 3-ys).GetStartSolar()
+				wd := m.dayEx
+				if ys == 2 {
+					wd = m.dayEx2
+				}
+				if ec.GetSect() != ys || ec.GetDay() != ref.Pair(wd) {
+					return fmt.Errorf("%v: day-boundary convention %d, then GetYunBySect(%d,%d): convention now %d, day pillar %s (model %s)", t, ys, g, 3-ys, ec.GetSect(), ec.GetDay(), ref.Pair(wd))
+				}
+			}
+		}
+		ec.SetSect(2)
+		// the day's thirteen hour objects (00:00, 01:00, 03:00 … 23:00), whatever the receiver's own clock time
+		for k, lt := range l.GetTimes() {
+			ds := m.day
+			if k == 12 {
+				ds = m.day + 1 // the 23:00 entry belongs to the next day's rat hour
+			}
+			want := ref.PairIndex(ref.HourStem(ds%10, k%12), k%12)
+			if lt.GetGanZhi() != ref.Pair(want) || lt.GetGanIndex() != want%10 || lt.GetZhiIndex() != want%12 {
+				return fmt.Errorf("%v: GetTimes()[%d] = %s (indices %d,%d), five-rats from day %s gives %s", t, k, lt.GetGanZhi(), lt.GetGanIndex(), lt.GetZhiIndex(), ref.Pair(ds), ref.Pair(want))
+			}
+		}
 		return nil
 	},
 	Class: func(c momentCase) ([]string, bool) {
